@@ -344,7 +344,11 @@ class Interp:
             if z is True:
                 raise RaiseSignal('ZeroDivisionError', 'division by zero')
             if z is not False:
-                if self.ctx.branch(z):
+                if self.ctx.pure:
+                    # contract clauses / speculative evaluation: fine when the divisor cannot be zero here
+                    if self.ctx.feasible(z3bool(z)):
+                        raise NotPure()
+                elif self.ctx.branch(z):
                     raise RaiseSignal('ZeroDivisionError', 'division by zero')
         if a is None or b is None:
             raise RaiseSignal('TypeError', f'unsupported operand None for {op}')
@@ -608,6 +612,8 @@ class Interp:
 
     def call_repo(self, func, args, kwargs=None, self_obj=None):
         kwargs = kwargs or {}
+        if func.qual in self.cfg.extra.get('trace', ()):
+            self.ctx.trace.append((func.qual, tuple(args), dict(kwargs)))
         ov = self.cfg.overrides.get(func.qual)
         if ov is not None:
             return ov(self, args, kwargs)
